@@ -156,7 +156,7 @@ def check_wake_order(sub):
 
 def generate(rng, tier):
     batch = [union.generate(rng) for _ in range(BATCH)]
-    batch.extend(wake_order_program(rng) for _ in range(5))
+    batch.extend(wake_order_program(rng) for _ in range(8))
     batch.extend(absorbed_delay_program(rng) for _ in range(2))
     for sub in batch:
         if rng.random() < 0.5:
